@@ -158,11 +158,13 @@ Definition step (s : st) (l : label) : option st :=
       | _ => None
       end
   | Notify =>
-      if notif s then
+      (* the notifier greenlet of the event runs the subscribed callbacks; timeout_proc may also have been subscribed by
+         a send attempt that then failed (no Write label): then it finds nothing to discard *)
+      if evt s then
         Some {| now := now s; deadline := deadline s; p := p s; evt := evt s; handed := handed s; completed := completed s;
-                subscribed := subscribed s; tagkey := false; notif := false; conn_open := conn_open s;
+                subscribed := subscribed s; tagkey := if notif s then false else tagkey s; notif := false; conn_open := conn_open s;
                 owed := match p s with
-                        | OnWire (Some tag) => if tagkey s && conn_open s then Some tag else owed s
+                        | OnWire (Some tag) => if notif s && tagkey s && conn_open s then Some tag else owed s
                         | _ => owed s end;
                 writes := writes s; discards := discards s |}
       else None
